@@ -487,7 +487,16 @@ fn forked(path: &str, seg: usize, f: impl FnOnce(&mut Trace)) {
     let mut status = 0;
     unsafe { libc::waitpid(pid, &mut status, 0) };
     if !(libc::WIFEXITED(status) && libc::WEXITSTATUS(status) == 0) {
-        let text = std::fs::read_to_string(path).unwrap_or_default();
+        // last line of the trace (only the tail of the file is read)
+        let text = {
+            use std::io::{Read, Seek, SeekFrom};
+            let mut f = std::fs::File::open(path).expect("trace");
+            let len = f.metadata().map(|m| m.len()).unwrap_or(0);
+            let _ = f.seek(SeekFrom::Start(len.saturating_sub(1 << 18)));
+            let mut b = Vec::new();
+            let _ = f.read_to_end(&mut b);
+            String::from_utf8_lossy(&b).to_string()
+        };
         let last: J = text.lines().last().and_then(|l| serde_json::from_str(l).ok()).unwrap_or(json!({}));
         let sig = if libc::WIFSIGNALED(status) { libc::WTERMSIG(status) } else { -libc::WEXITSTATUS(status) };
         let ev = json!({"e": "Crash", "seg": seg, "signal": sig, "during": last["e"], "op": last["op"], "i": last["i"]});
